@@ -95,11 +95,25 @@ def new_agg():
         "samples": [],
         "harness_errors": [],
         "sets": collections.defaultdict(set),
+        "sigcount": collections.Counter(),
         "cases": 0,
     }
 
 
-MAX_VIOLS_KEPT = 400
+MAX_PER_SIG = 3
+
+
+def _sigkey(v):
+    return json.dumps(v.get("sig", {}), sort_keys=True, default=str)
+
+
+def _keep(agg, v):
+    """Keep at most MAX_PER_SIG examples per signature (all signatures are kept)."""
+    k = _sigkey(v)
+    agg["sigcount"][k] += v.get("_count", 1)
+    have = sum(1 for w in agg["viols"] if _sigkey(w) == k) if agg["sigcount"][k] <= 50 else MAX_PER_SIG
+    if have < MAX_PER_SIG:
+        agg["viols"].append(v)
 
 
 def merge_out(agg, out, idx=None):
@@ -107,8 +121,7 @@ def merge_out(agg, out, idx=None):
     for k, v in out.get("counters", {}).items():
         agg["counters"][k] += v
     for v in out.get("viols", []):
-        if len(agg["viols"]) < MAX_VIOLS_KEPT:
-            agg["viols"].append(v)
+        _keep(agg, v)
         agg["counters"]["violations_total"] += 1
     s = out.get("sample")
     if s is not None and len(agg["samples"]) < 3:
@@ -120,9 +133,13 @@ def merge_out(agg, out, idx=None):
 def merge_agg(a, b):
     a["cases"] += b["cases"]
     a["counters"].update(b["counters"])
+    kept = collections.Counter(_sigkey(w) for w in a["viols"])
     for v in b["viols"]:
-        if len(a["viols"]) < MAX_VIOLS_KEPT:
+        k = _sigkey(v)
+        if kept[k] < MAX_PER_SIG:
             a["viols"].append(v)
+            kept[k] += 1
+    a["sigcount"].update(b["sigcount"])
     for s in b["samples"]:
         if len(a["samples"]) < 6:
             a["samples"].append(s)
@@ -262,10 +279,12 @@ def run_check(prop, tier, jobs, limit=None, only_case=None):
         post = mod.finalize(agg, tier) or {}
         for v in post.pop("viols", []):
             agg["viols"].append(v)
+            agg["sigcount"][_sigkey(v)] += 1
             agg["counters"]["violations_total"] += 1
 
     # --- triage against known findings -------------------------------------------------
     matched = collections.Counter()
+    hit_sigs = {}
     fresh = []
     for v in agg["viols"]:
         sig = v.get("sig", {})
@@ -275,7 +294,8 @@ def run_check(prop, tier, jobs, limit=None, only_case=None):
                 hit = e
                 break
         if hit is not None:
-            matched[hit["id"]] += 1
+            matched[hit["id"]] += 0
+            hit_sigs.setdefault(hit["id"], set()).add(_sigkey(v))
         else:
             # a fixed finding that returns is reported with its history
             for e in findings:
@@ -284,6 +304,8 @@ def run_check(prop, tier, jobs, limit=None, only_case=None):
                                 f"{e.get('what')} (fixed in {e.get('commit')})]")
             fresh.append(v)
 
+    for fid, ks in hit_sigs.items():
+        matched[fid] = sum(agg["sigcount"][k] for k in ks)
     exit_code = 0
     printed = set()
     nprinted = 0
@@ -294,12 +316,14 @@ def run_check(prop, tier, jobs, limit=None, only_case=None):
             continue
         printed.add(key)
         nprinted += 1
-        if nprinted <= 25:
+        if nprinted <= 40:
             print(f"VIOLATION property={prop} replay={path}")
+            print(f"    [{agg['sigcount'][key]} executions] sig={key}")
             print("   ", (v.get("msg") or "")[:600].replace("\n", " | "))
         exit_code = 1
-    if len(fresh) > nprinted:
-        print(f"    ... {len(fresh)} violating executions kept in {nprinted} distinct signatures")
+    nfresh_exec = sum(agg["sigcount"][k] for k in printed)
+    if fresh:
+        print(f"    ... {nfresh_exec} violating executions in {nprinted} distinct signatures")
     for e in findings:
         if e.get("status") == "open":
             print(f"KNOWN-FINDING: property={prop} {e.get('what')} "
@@ -340,7 +364,7 @@ def run_check(prop, tier, jobs, limit=None, only_case=None):
         "coverage": coverage,
         "assumptions": meta.get("assumptions", []),
         "wall_s": round(wall, 2),
-        "violations": len(fresh),
+        "violations": nfresh_exec,
     }
     os.makedirs(EVIDENCE_DIR, exist_ok=True)
     path = os.path.join(EVIDENCE_DIR, prop + ".json")
@@ -353,7 +377,7 @@ def run_check(prop, tier, jobs, limit=None, only_case=None):
         exit_code = exit_code or 2
     print(
         f"[{prop} {tier}] cases={ncases} executions={coverage['evaluations']} "
-        f"nontrivial={coverage['distinct_nontrivial']} violations={len(fresh)} "
+        f"nontrivial={coverage['distinct_nontrivial']} violations={nfresh_exec} "
         f"known={sum(matched.values())} wall={wall:.1f}s exit={exit_code}"
     )
     return exit_code
